@@ -170,7 +170,7 @@ Proof. intros HV. induction l as [|a l IH].
   - cbn [map]. rewrite rsum_cons, IH by (intros; apply HV; right; assumption).
     rewrite <- trapz_add by (rewrite map_length, seq_length; apply HV; left; reflexivity).
     f_equal. apply nth_ext with (d := 0) (d' := 0).
-    + rewrite vadd_length; rewrite ?map_length, ?seq_length; [reflexivity | apply HV; left; reflexivity].
+    + rewrite vadd_length; rewrite ?map_length, ?seq_length; apply HV; left; reflexivity.
     + intros j Hj. rewrite map_length, seq_length in Hj. rewrite vadd_nth by (rewrite map_length, seq_length; apply HV; left; reflexivity).
       rewrite !nth_map_seq by assumption. rewrite rsum_cons. reflexivity. Qed.
 
